@@ -54,6 +54,8 @@ func (t *Task) Done() bool { return t.done.Load() }
 // Sim is one simulated run: the tape, the token scheduler, counters.
 type Sim struct {
 	T *Tape
+	// Prop is the property under check (VERIF_PROP); ViolateP reports only its clauses.
+	Prop string
 
 	mu     sync.Mutex // protects everything below; never held while blocking
 	parked []*waiter
@@ -485,4 +487,15 @@ func (s *Sim) Do(name string, fn func()) bool {
 		s.Release(*pick)
 	}
 	return t.Done()
+}
+
+// ViolateP records a violation of property prop; when the check runs for
+// another property the observation is logged as a note instead (a check
+// prints only violations of its own property).
+func (s *Sim) ViolateP(prop, clause, sig, format string, a ...any) {
+	if s.Prop == "" || s.Prop == prop {
+		s.Violate(clause, sig, format, a...)
+		return
+	}
+	s.Note("[other property %s] %s: %s", prop, clause, fmt.Sprintf(format, a...))
 }
